@@ -5,6 +5,6 @@ d=/verif/benign/$1; shift
 scratch=$(mktemp -d /tmp/mut.XXXXXX); cp -r /repo/. $scratch/; rm -rf $scratch/.git
 (pp=$(readlink -f $d/patch.diff); cd $scratch && patch -p1 -s < $pp)
 vd=$(mktemp -d /tmp/mutv.XXXXXX); cp /verif/known_findings.json $vd/
-for p in $*; do /verif/bin/argverif -repo $scratch -verif $vd -property $p | grep -E "rule=|expected:|found:" | cut -c1-400; done
+for p in $*; do ${ARGVERIF:-/verif/bin/argverif} -repo $scratch -verif $vd -property $p | grep -E "rule=|expected:|found:" | cut -c1-400; done
 [ -n "${KEEP:-}" ] && echo "kept $scratch" || rm -rf $scratch
 rm -rf $vd
